@@ -1,6 +1,7 @@
 package main
 
 import (
+	"strconv"
 	"fmt"
 	"go/types"
 	"runtime/debug"
@@ -137,6 +138,7 @@ type dischargeOpts struct {
 	thorough  bool
 	seed      int
 	jobs      int
+	hints     map[string][]string
 }
 
 func solveOne(c *Check, o dischargeOpts) *Instance {
@@ -185,13 +187,48 @@ func solveOne(c *Check, o dischargeOpts) *Instance {
 		inst.Result = try(solvers[0], 1500, o.seed)
 		return inst
 	}
+	// rungs remembered in the ledger for this obligation go first
+	if !o.thorough {
+		for _, rung := range o.hints[c.Name] {
+			spName, level := rung, -1
+			if i := strings.LastIndex(rung, "/rel"); i >= 0 {
+				if n, err := strconv.Atoi(rung[i+4:]); err == nil {
+					spName, level = rung[:i], n
+				}
+			}
+			for _, sp := range solvers {
+				if sp.name != spName {
+					continue
+				}
+				if level >= 30 && c.Focus == "" {
+					continue
+				}
+				rf := runSolverLevel(sp, c, o.timeoutMs*3, o.seed, level)
+				if level >= 0 {
+					rf.Solver += fmt.Sprintf("/rel%d", level)
+				}
+				inst.Tried = append(inst.Tried, rf)
+				if rf.Status == "unsat" {
+					inst.Result = rf
+					return inst
+				}
+			}
+		}
+	}
 	// filtered attempts (only `unsat` counts), then the full query
 	quick := o.timeoutMs / 2
 	for _, att := range []struct {
 		sp    solverSpec
 		level int
-	}{{solvers[0], 0}, {solvers[0], 10}, {solvers[0], 1}, {solvers[0], 11}, {solvers[0], 2}, {solvers[1], 0}, {solvers[1], 2}} {
-		rf := runSolverLevel(att.sp, c, quick, o.seed, att.level)
+	}{{solvers[0], 30}, {solvers[0], 31}, {solvers[0], 0}, {solvers[0], 10}, {solvers[0], 1}, {solvers[0], 11}, {solvers[0], 2}, {solvers[1], 0}, {solvers[1], 2}} {
+		if att.level >= 30 && c.Focus == "" {
+			continue
+		}
+		tmo := quick
+		if att.level >= 30 {
+			tmo = o.timeoutMs // the focused query is the one most likely to succeed: give it room
+		}
+		rf := runSolverLevel(att.sp, c, tmo, o.seed, att.level)
 		rf.Solver += fmt.Sprintf("/rel%d", att.level)
 		inst.Tried = append(inst.Tried, rf)
 		if rf.Status == "unsat" {
